@@ -36,7 +36,8 @@ THEOREMS = ["C11_serial_if_atomic", "C11_serial_is_sequential", "C11_atomic_lose
             "C11_commit_loses_checkpoint_refuted", "C11_stale_base_refuted", "C11_torn_blob_refuted", "C11_new_head_checkpoint_kept", "C11_reset_of_new_log_would_lose", "C11_no_phantoms", "C11_no_duplicates",
             "C11_worktree_isolated", "C11_checkpoints_in_two_worktrees", "C11_storage_paths_distinct",
             "C11_known_exact", "C11_two_appends_exact", "C11_nonvacuous", "C11_two_worktrees_example",
-            "C11_paths_example"]
+            "C11_paths_example", "C11_rewrite_serial_unless_overlapped", "C11_rewrite_overlapped_torn_tail",
+            "C11_torn_tail_example"]
 CLAIM = {
     "text": "Machine-checked proof (Coq 8.16.1) over an executable interleaving model of the journal writers "
             "(append_checkpoint, append_event_to_file, git notes add, post_commit, checkpoint::run) for ANY number of "
